@@ -17,5 +17,7 @@ func controlsC08() []Control {
 		{Name: "survivors include players left with nothing", Expect: "R5", Mutate: replaceIn("(*tableEngine).settleGame", "if playerState.Bankroll > 0 {\n\t\t\talivePlayers", "if playerState.Bankroll >= 0 {\n\t\t\talivePlayers", 0)},
 		{Name: "continue step handed a truncated survivor list", Expect: "R5", Mutate: replaceIn("(*tableEngine).onGameClosed", "te.continueGame(alivePlayers)", "te.continueGame(alivePlayers[:1])", 0)},
 		{Name: "set-up participants skip the first survivor", Expect: "R5", Mutate: replaceIn("(*tableEngine).continueGame", "for idx, player := range alivePlayers {", "for idx, player := range alivePlayers[1:] {", 0)},
+		{Name: "gate time limit taken unguarded from the options", Expect: "R6", Mutate: replaceIn("(*tableEngine).CreateTable", "Timeout: 2,", "Timeout: te.options.OpenGameTimeout,", 0)},
+		{Name: "gate built without a time limit", Expect: "R6", Mutate: replaceIn("(*tableEngine).CreateTable", "Timeout: 2,", "Timeout: 0,", 0)},
 	}
 }
